@@ -46,7 +46,14 @@ func parseCmd(line string) (cmd string, arg string, err error) {
 		return "", "", fmt.Errorf("mangled command: %q", line)
 	}
 
-	return strings.ToUpper(line[0:4]), strings.TrimSpace(line[5:]), nil
+	return strings.ToUpper(line[0:4]), trimBlanks(line[5:]), nil
+}
+
+// trimBlanks removes leading and trailing SP and HT. Unlike strings.TrimSpace
+// it leaves Unicode white space alone: U+00A0, U+0085 etc. can be part of a
+// UTF-8 parameter value or mailbox (RFC 6531, RFC 6533).
+func trimBlanks(s string) string {
+	return strings.Trim(s, " \t")
 }
 
 // Takes the arguments proceeding a command and files them
